@@ -9,6 +9,7 @@ import FinamModel.Static
 import FinamModel.Props.C09
 import FinamModel.Props.C08
 import FinamModel.Props.TrCommon
+import FinamModel.Props.TrOutputCommon
 /-
   Equivalence of the translated `Output._interpolate` (regenerated from `finam/sdk/output.py`) with the
   hand-written `lookup` of the C08 / C09 theorems.
@@ -103,86 +104,6 @@ theorem evict_while {α} (ci : List (Nat × Option Int)) (tmin : Int) : ∀ (fue
         simp [hc, Py.pop0, this]
       · simp [hc, ofE]
         exact (ofE_toE r).symm
-
-/-- minimum as `minLast` computes it -/
-def rmin : Int → List Int → Int
-  | a, [] => a
-  | a, b :: r => if a ≤ rmin b r then a else rmin b r
-
-theorem rmin_imin (a b : Int) : ∀ r, rmin (Py.imin a b) r = (if a ≤ rmin b r then a else rmin b r) := by
-  intro r
-  induction r generalizing a b with
-  | nil =>
-    simp only [rmin, Py.imin]
-    by_cases h1 : b < a <;> by_cases h2 : a ≤ b <;> simp [h1, h2] <;> omega
-  | cons c r ih =>
-    simp only [rmin, Py.imin]
-    by_cases h1 : b < a <;> by_cases h2 : b ≤ rmin c r <;> by_cases h3 : a ≤ rmin c r <;> by_cases h4 : a ≤ b <;>
-      simp [h1, h2, h3, h4] <;> omega
-
-theorem foldl_rmin (a : Int) : ∀ xs, xs.foldl Py.imin a = rmin a xs := by
-  intro xs
-  induction xs generalizing a with
-  | nil => rfl
-  | cons b r ih => simp only [List.foldl_cons, ih, rmin_imin, rmin]
-
-theorem minLast_some (a : Int) : ∀ xs : List Int, minLast ((a :: xs).map some) = some (rmin a xs) := by
-  intro xs
-  induction xs generalizing a with
-  | nil => rfl
-  | cons b r ih =>
-    have := ih b
-    simp only [List.map_cons] at this ⊢
-    simp only [minLast, this, rmin]
-
-theorem allSome_spec : ∀ (vs : List (Option Int)),
-    (vs.any (fun t => decide (t.isNone = true)) = false → ∃ xs, vs = xs.map some ∧ Py.allSome vs = .ok xs ∧ Finam.allSome vs = true) ∧
-    (vs.any (fun t => decide (t.isNone = true)) = true → Finam.allSome vs = false) := by
-  intro vs
-  induction vs with
-  | nil => simp [Py.allSome, Finam.allSome]
-  | cons v vs ih =>
-    cases v with
-    | none => simp [Finam.allSome]
-    | some x =>
-      constructor
-      · intro h
-        have h' : vs.any (fun t => decide (t.isNone = true)) = false := by simpa using h
-        obtain ⟨xs, h1, h2, h3⟩ := ih.1 h'
-        refine ⟨x :: xs, by simp [h1], by simp [Py.allSome, h2, Except.map], ?_⟩
-        simpa [Finam.allSome] using h3
-      · intro h
-        have h' : vs.any (fun t => decide (t.isNone = true)) = true := by simpa using h
-        have := ih.2 h'
-        simpa [Finam.allSome] using this
-
-/-- `d[target] = v` on the `k`-th key of a dict with distinct keys: the values change at position `k` only -/
-theorem dictSet_values {ν} : ∀ (ci : List (Nat × ν)) (k : Nat) (target : Nat) (w : ν),
-    (ci.map Prod.fst).Nodup → (ci.map Prod.fst)[k]? = some target →
-    (Py.dictSet ci target w).map Prod.snd = (ci.map Prod.snd).set k w ∧
-    (Py.dictSet ci target w).map Prod.fst = ci.map Prod.fst := by
-  intro ci
-  induction ci with
-  | nil => intro k target w _ hk; simp at hk
-  | cons p ps ih =>
-    intro k target w hnd hk
-    obtain ⟨a, b⟩ := p
-    cases k with
-    | zero =>
-      simp at hk; subst hk
-      simp [Py.dictSet]
-    | succ k =>
-      have hne : ¬ a = target := by
-        intro e; subst e
-        simp only [List.map_cons, List.nodup_cons] at hnd
-        have : a ∈ ps.map Prod.fst := by
-          simp only [List.map_cons, List.getElem?_cons_succ] at hk
-          exact List.mem_of_getElem? hk
-        exact hnd.1 this
-      simp only [List.map_cons, List.nodup_cons] at hnd
-      simp only [List.map_cons, List.getElem?_cons_succ] at hk
-      obtain ⟨h1, h2⟩ := ih k target w hnd.2 hk
-      simp [Py.dictSet, hne, h1, h2]
 
 /-- **`Output._clear_data` is the bookkeeping step of the model's `stepImpl`**: the request is recorded for the
     pulling end point, and once every end point has pulled the history is evicted up to the smallest recorded request. -/
